@@ -1,4 +1,33 @@
-From Coq Require Import List NArith.
-From GQL Require Import Visitor.VisitorTree Visitor.VisitorWalk Visitor.VisitorLoop.
-Theorem C14_placeholder : True. Proof. exact I. Qed.
-Print Assumptions C14_placeholder.
+(* Property C14 -- AST traversal visits every node once, in order, honouring skip and break.
+   Statements only; proofs live in Proofs/Visitor*.v. *)
+From Coq Require Import List NArith Bool.
+From GQL Require Import Visitor.VisitorTree Visitor.VisitorWalk Visitor.VisitorLoop
+     Proofs.VisitorLoopProofs.
+Import ListNotations.
+
+(* The iterative loop of visitor.Visit, as written (explicit stack, keys, index, path,
+   ancestors, inSlice), delivers exactly the events of the plain recursive walk -- phase,
+   selected function, node, key, parent, path, ancestors -- for every key table, every
+   visitor form (any selection function), every policy and every tree: any run that ends,
+   ends with the walk ... *)
+Theorem C14_loop_is_walk : forall keys_of sel pol t fuel evs replaced rebuilt,
+  visit_loop keys_of sel pol fuel t = Done evs replaced rebuilt ->
+  evs = walk_events keys_of sel pol t.
+Proof. intros * H. exact (proj1 (visit_loop_is_walk keys_of sel pol t fuel evs replaced rebuilt H)). Qed.
+Print Assumptions C14_loop_is_walk.
+
+(* ... and every run ends within loop_fuel t iterations (two per visited node, two per
+   non-empty list, one per absent child). *)
+Theorem C14_loop_terminates : forall keys_of sel pol t fuel,
+  (loop_fuel keys_of t <= fuel)%nat ->
+  visit_loop keys_of sel pol fuel t = Done (walk_events keys_of sel pol t) false false.
+Proof. exact visit_loop_terminates. Qed.
+Print Assumptions C14_loop_terminates.
+
+(* A traversal whose callbacks request no edits (continue / skip / break only) never rebuilds
+   a node from edits and returns no replacement. *)
+Theorem C14_no_edit_identity : forall keys_of sel pol t fuel evs replaced rebuilt,
+  visit_loop keys_of sel pol fuel t = Done evs replaced rebuilt ->
+  replaced = false /\ rebuilt = false.
+Proof. intros * H. exact (proj2 (visit_loop_is_walk keys_of sel pol t fuel evs replaced rebuilt H)). Qed.
+Print Assumptions C14_no_edit_identity.
